@@ -36,7 +36,7 @@ Proof.
 Qed.
 
 Lemma classes_ok_spec start rest : classes_ok start rest = true ->
-  (forall c, in_class start c = true -> is_alpha c || (c =? 36) = true) /\
+  (forall c, in_class start c = true -> is_alpha c = true) /\
   (forall c, in_class rest c = true -> is_wordc c = true) /\
   (forall c, in_class start c = true -> lower_ascii_c c = c) /\
   (forall c, in_class rest c = true -> lower_ascii_c c = c).
@@ -63,12 +63,11 @@ Proof. intros H F. rewrite forallb_forall in *. intros x Hx. apply H, F, Hx. Qed
 
 Theorem bare_lexes_as_word start rest d s :
   classes_ok start rest = true -> valid_ident start rest s = true -> is_star s = false ->
-  starts_with 36 s = false -> sql_lex d s = [TWord s].
+  sql_lex d s = [TWord s].
 Proof.
-  intros Hc Hv Hs Hd. destruct (classes_ok_spec _ _ Hc) as (C1 & C2 & _ & _).
+  intros Hc Hv Hs. destruct (classes_ok_spec _ _ Hc) as (C1 & C2 & _ & _).
   destruct (valid_not_star _ _ _ Hv Hs) as (c & r & -> & Hc1 & Hr).
-  cbn [starts_with] in Hd. specialize (C1 c Hc1). rewrite Hd, orb_false_r in C1.
-  pose proof (lex_word d c r [] C1 (forallb_impl _ _ _ C2 Hr) eq_refl) as L.
+  pose proof (lex_word d c r [] (C1 c Hc1) (forallb_impl _ _ _ C2 Hr) eq_refl) as L.
   rewrite app_nil_r in L. exact L.
 Qed.
 
@@ -94,10 +93,10 @@ Proof.
   exact (lex_quoted_ident d q s [] Hq eq_refl).
 Qed.
 
-Theorem quoted_fixed_lexes_as_name d q s : (q = 34 \/ q = 96) ->
-  sql_lex d (emit_quoted_fixed q s) = [TQuoted q s].
+Theorem ident_quoted_lexes_as_name d q s : (q = 34 \/ q = 96) ->
+  sql_lex d (emit_ident_quoted q s) = [TQuoted q s].
 Proof.
-  intros Hq. rewrite emit_quoted_fixed_eq.
+  intros Hq. rewrite emit_ident_quoted_eq.
   exact (lex_quoted_ident d q s [] Hq eq_refl).
 Qed.
 
@@ -105,17 +104,16 @@ Qed.
 
 Theorem ident_roundtrip_ok start rest common d k s :
   classes_ok start rest = true -> (iq d = 34 \/ iq d = 96) ->
-  (k = FoldUpper -> always_quoted d = true) ->
-  esc_known (iq d) s = false -> is_star s = false -> starts_with 36 s = false ->
+  (k = FoldUpper -> always_quoted d = true) -> is_star s = false ->
   ident_denotes k (iq d) (emit_ident start rest common d s) = Some s.
 Proof.
-  intros Hc Hq Hk He Hs Hd. unfold ident_denotes, emit_ident.
-  assert (ident_of_tokens k (iq d) (sql_lex std_sql (emit_quoted (iq d) s)) = Some s) as Q.
-  { rewrite quoted_lexes_as_name by assumption. cbn [ident_of_tokens]. rewrite N.eqb_refl. reflexivity. }
+  intros Hc Hq Hk Hs. unfold ident_denotes, emit_ident.
+  assert (ident_of_tokens k (iq d) (sql_lex std_sql (emit_ident_quoted (iq d) s)) = Some s) as Q.
+  { rewrite ident_quoted_lexes_as_name by assumption. cbn [ident_of_tokens]. rewrite N.eqb_refl. reflexivity. }
   destruct (always_quoted d) eqn:A; [exact Q|].
   destruct (valid_ident start rest s && negb (is_keyword common (extra_kw d) s)) eqn:B; [|exact Q].
   apply andb_true_iff in B as [Hv _].
-  rewrite (bare_lexes_as_word start rest std_sql s Hc Hv Hs Hd). cbn [ident_of_tokens]. f_equal.
+  rewrite (bare_lexes_as_word start rest std_sql s Hc Hv Hs). cbn [ident_of_tokens]. f_equal.
   destruct k; cbn [fold_name].
   - reflexivity.
   - apply (bare_casefold_fixpoint start rest s Hc Hv).
@@ -129,38 +127,47 @@ Proof. unfold keywords_cover. rewrite forallb_forall. intros H Hx. apply H, Hx. 
 
 Theorem keyword_not_bare start rest common engine d s :
   keywords_cover engine common = true -> mem_str (upper_ascii s) engine = true ->
-  emit_ident start rest common d s = emit_quoted (iq d) s.
+  emit_ident start rest common d s = emit_ident_quoted (iq d) s.
 Proof.
   intros Hc Hm. unfold emit_ident. destruct (always_quoted d); [reflexivity|].
   apply mem_str_spec in Hm. pose proof (keywords_cover_spec _ _ _ Hc Hm) as K.
   unfold is_keyword. rewrite K. cbn [orb negb]. rewrite andb_false_r. reflexivity.
 Qed.
 
-Lemma emit_quoted_starts q s : starts_with q (emit_quoted q s) = true.
-Proof. cbn [emit_quoted starts_with]. apply N.eqb_refl. Qed.
+Lemma emit_quoted_starts q s : starts_with q (emit_ident_quoted q s) = true.
+Proof. unfold emit_ident_quoted. cbn [emit_quoted starts_with]. apply N.eqb_refl. Qed.
 
 (* ------------------------------------------------------------------ the statements of Props/C09.v, generic in the tables *)
 
 Theorem ident_roundtrip_rows start rest common extra rows :
   classes_ok start rest = true -> quotes_ok rows = true ->
-  forall row k s, In row rows -> (k = FoldUpper -> snd row = true) ->
-  esc_known (snd (fst row)) s = false -> is_star s = false -> starts_with 36 s = false ->
+  forall row k s, In row rows -> (k = FoldUpper -> snd row = true) -> is_star s = false ->
   ident_denotes k (snd (fst row)) (emit_ident start rest common (identd_of extra row) s) = Some s.
 Proof.
-  intros Hc Q [[name q] a] k s Hin Hk He Hs Hd. cbn [fst snd] in *.
+  intros Hc Q [[name q] a] k s Hin Hk Hs. cbn [fst snd] in *.
   unfold quotes_ok in Q. rewrite forallb_forall in Q. specialize (Q _ Hin). cbn [fst snd] in Q.
   apply (ident_roundtrip_ok start rest common (identd_of extra (name, q, a)) k s Hc).
   - apply orb_true_iff in Q as [Q|Q]; apply N.eqb_eq in Q; [left | right]; exact Q.
   - exact Hk.
-  - exact He.
   - exact Hs.
-  - exact Hd.
+Qed.
+
+(* different names are never emitted as the same text (no two user objects can be merged) *)
+Theorem emit_ident_injective start rest common extra rows :
+  classes_ok start rest = true -> quotes_ok rows = true ->
+  forall row s1 s2, In row rows -> is_star s1 = false -> is_star s2 = false ->
+  emit_ident start rest common (identd_of extra row) s1 = emit_ident start rest common (identd_of extra row) s2 -> s1 = s2.
+Proof.
+  intros Hc Q row s1 s2 Hin H1 H2 E.
+  pose proof (ident_roundtrip_rows start rest common extra rows Hc Q row FoldNone s1 Hin ltac:(discriminate) H1) as R1.
+  pose proof (ident_roundtrip_rows start rest common extra rows Hc Q row FoldNone s2 Hin ltac:(discriminate) H2) as R2.
+  rewrite E in R1. rewrite R1 in R2. injection R2 as ->. reflexivity.
 Qed.
 
 Theorem keyword_quoted_rows start rest common engine :
   keywords_cover engine common = true ->
   forall d s, mem_str (upper_ascii s) engine = true ->
-  emit_ident start rest common d s = emit_quoted (iq d) s /\ starts_with (iq d) (emit_ident start rest common d s) = true.
+  emit_ident start rest common d s = emit_ident_quoted (iq d) s /\ starts_with (iq d) (emit_ident start rest common d s) = true.
 Proof.
   intros Hc d s H. pose proof (keyword_not_bare start rest common engine d s Hc H) as E.
   split; [exact E | rewrite E; apply emit_quoted_starts].
